@@ -287,7 +287,7 @@ pub fn sane(v: &Value) -> Result<(), String> {
 }
 
 fn site_json(p: &PanicInfo) -> Value {
-    json!({"file": p.site.file, "function": p.site.function, "msg": p.site.msg, "line": p.line, "raw": p.raw_msg.chars().take(160).collect::<String>()})
+    json!({"file": p.site.file, "function": p.site.function, "msg": p.site.msg, "code": p.site.code, "line": p.line, "raw": p.raw_msg.chars().take(160).collect::<String>()})
 }
 
 /// Indicators of a healthy probe model as a JSON value (the isolated reference is the
